@@ -169,7 +169,11 @@ class Ctx:
         self.violations.append({"sig": sig, "input": inp, "detail": detail, "replay": replay})
 
     def budget(self, quick, thorough):
-        return thorough if self.tier == "thorough" else quick
+        if self.tier == "thorough":
+            return thorough
+        if getattr(self, "escalated", False) and isinstance(quick, int) and isinstance(thorough, int) and thorough > quick:
+            return min(thorough, 3 * quick)      # source drift: three times the quick budget, never more than thorough
+        return quick
 
 
 # ------------------------------------------------------------------ build / audit
